@@ -90,6 +90,10 @@ pub trait Family: Sync + Send {
     fn level(&self) -> &'static str {
         "exploration"
     }
+    /// properties for which a crashed / hung worker is a violation
+    fn crash_properties(&self) -> &'static [&'static str] {
+        &["C04"]
+    }
 }
 
 // ------------------------------------------------------------------ worker side
@@ -470,11 +474,11 @@ pub fn run_check(property: &'static str, fams: &[&dyn Family], tier: Tier, verif
         let mut fam_known = 0u64;
         // crashes/hangs of the worker process are findings against C04 (never crashes or hangs)
         for (idx, how) in &r.crashes {
-            let f = json!({"property": "C04", "class": "worker-died", "site": format!("{}#{}", fam.name(), idx), "detail": how,
+            let f = json!({"property": property, "class": "worker-died", "site": format!("{}#{}", fam.name(), idx), "detail": how,
                 "replay": {"family": fam.name(), "index": idx, "tier": tier.name()}});
-            if property == "C04" {
+            if fam.crash_properties().contains(&property) {
                 let site = f["site"].as_str().unwrap().to_string();
-                if let Some(k) = match_known(&known, "C04", "worker-died", &site) {
+                if let Some(k) = match_known(&known, property, "worker-died", &site) {
                     let e = known_hits.entry(k.id.clone()).or_insert((k.what.clone(), 0));
                     e.1 += 1;
                     fam_known += 1;
